@@ -66,7 +66,11 @@ func TimestampFromOOBData(oob []byte) (time.Time, error) {
 				return time.Unix(ts.Unix()).UTC(), nil
 			}
 		}
-		oob = oob[unix.CmsgSpace(int(h.Len))-unix.CmsgSpace(0):]
+		next := unix.CmsgSpace(int(h.Len)) - unix.CmsgSpace(0)
+		if next > len(oob) {
+			return time.Time{}, errUnexpectedData
+		}
+		oob = oob[next:]
 	}
 	return time.Time{}, errTimestampNotFound
 }
